@@ -4,6 +4,7 @@ import Ecal.Model.Eval
 import Ecal.Lemmas.C06NoPanic
 import Ecal.Lemmas.C06FragB
 import Ecal.Lemmas.C06Bridge
+import Ecal.Lemmas.C06Validate
 import Ecal.Props.C07
 /-!
 C06 — no ECAL program, sink attribute or event can crash the host process.
@@ -354,6 +355,18 @@ theorem eval_never_panics (ts : List Ecal.Lex.Tok) (t : Ecal.Parse.Node)
     (hparse : Ecal.Parse.parseToks ts = (some t, none)) (f sc : Nat) (s : St) (hs : Inv s) :
     ((eval f sc t).run.run s).1 ≠ .error Sig.panic ∧ Inv ((eval f sc t).run.run s).2 :=
   eval_frag_no_panic f sc t (wellformed_frag t (Ecal.Props.C07.parse_wellformed_strict ts t hparse)) s hs
+
+/-- **validate_never_panics.** For every tree the parser model returns, the validation the C06 driver runs
+    (`Ecal.ValidateS.validateS`: the structural twin of the shared model's `partial def validate`, cross-checked
+    against it by the driver on every case and compared with Go's `Validate` through the outcome class) ends in a
+    value or an error, never in a panic, for every fuel. -/
+theorem validate_never_panics (ts : List Ecal.Lex.Tok) (t : Ecal.Parse.Node)
+    (hparse : Ecal.Parse.parseToks ts = (some t, none)) (k : Nat) :
+    Ecal.ValidateS.validateS k t ≠ .error Sig.panic := by
+  have hw := Ecal.Props.C07.parse_wellformed_strict ts t hparse
+  simp only [Ecal.Parse.WellFormedRoot, Bool.and_eq_true] at hw
+  intro he
+  exact validateS_no_panic k t hw.1 _ he rfl
 
 /-- `Inv` holds for the state a run starts from when the trees of the interpolation table are parser results too
     (they are: `evPayload` builds the table with the same parser) and no function has been declared yet. -/
